@@ -8,7 +8,7 @@ from .. import e2
 from ..reports import all_reports, diff_reports
 
 PROP = "C15"
-REPORTS = ["solve", "rail_rep", "params", "limits", "phases", "tree", "save"]
+REPORTS = ["solve_energy", "rail_rep", "params", "limits", "phases", "tree", "save", "diag"]
 _DEEP = {"on": True}
 
 
@@ -60,10 +60,11 @@ def main(tier):
     run.samples.append({"seed": "rails", "history": [["ac", "Q0", "I", "N1", ""], ["dc", "QA", True]], "note": "second call is rejected (rail-valued target)"})
     for need in ("as:ValueError", "ac:ValueError", "cc:ValueError", "dc:ValueError", "sp:ValueError", "cp:ValueError"):
         run.require(need in kinds, "no rejected call of kind %s" % need)
+    __import__("shutil").rmtree(__import__("os").path.join(__import__("mc.common", fromlist=["VERIF"]).VERIF, ".work"), ignore_errors=True)
     return run.finish(
         rule="E2 (same transition system as C14, plus set_sys_phases / set_comp_phases incl. malformed arguments: non-dict/list, a single phase, 'N/A', {} , unknown component, loss "
-             "component, rail-valued target): depth <= %d, deviation budget <= %d from 5 seeds%s. For EVERY rejected call: K_full before == after, component objects identical, and 7 reports "
-             "(solve, rail_rep, params(limits), limits, phases, tree, save document) equal to the predecessor's. evaluations = transitions explored, distinct_nontrivial = rejected transitions checked." % (
+             "component, rail-valued target): depth <= %d, deviation budget <= %d from 5 seeds%s. For EVERY rejected call: K_full before == after, component objects identical, and 8 reports "
+             "(solve, rail_rep, params(limits), limits, phases, tree, save document, make_diag DOT graph) equal to the predecessor's. evaluations = transitions explored, distinct_nontrivial = rejected transitions checked." % (
                  D, B, "" if tier == "quick" else "; plus depth 4, budget 1 from 3 seeds with the white-box comparison only"),
         states=st["states"], transitions=st["transitions"], traces=st["rejected"],
         extra={"per_depth": st["per_depth"], "rejected_transitions": st["rejected"], "rejections_by_kind_and_exception": {k[9:]: v for k, v in st.items() if k.startswith("rejected:")},
